@@ -85,6 +85,8 @@ class Ctl:
         self.sig_job = None        # job whose body was running when the signal arrived
         self.swallowed = False     # the task itself caught the signal's exception at its raise point
         self.unloadable = []       # messages the worker sent that the parent cannot unpickle (exception class names)
+        self.arrived = {}          # job id -> instant at which the request reached the worker (it had been waiting until then)
+        self.entered = {}          # job id -> instant at which the task body was entered
 
     def point(self, where):
         self.n += 1
@@ -125,7 +127,13 @@ class Inq:
             if self.sentinel:
                 return None
             raise EOFError()
-        return self.tasks.popleft()
+        t = self.tasks.popleft()
+        self.ctl.clock += 10       # the worker had been waiting for this request: time passed before it arrived
+        try:
+            self.ctl.arrived[t[1][0]] = self.ctl.clock
+        except Exception:
+            pass
+        return t
 
 
 class Synq:
@@ -221,6 +229,7 @@ class Counter:
 
 def task(ctl, jid, kind, catch=False):
     ctl.bodies.append(jid)
+    ctl.entered.setdefault(jid, ctl.clock)
     if ctl.fired:
         ctl.bodies_after_sig += 1
     ctl.in_task = True
